@@ -58,6 +58,10 @@ type caseT struct {
 	Deg    int         `json:"deg"`
 	Form   string      `json:"form"`
 	Roots  [][]float64 `json:"roots"`
+	// line1d (spec/WolfeCases.tla): phi(a) = sum_j coefs[j-1] a^j, first trial step alpha1
+	Coefs   []rat    `json:"coefs"`
+	Alpha1  rat      `json:"alpha1"`
+	Classes []string `json:"classes"`
 	// channels
 	Name  string  `json:"name"`
 	Nx    int     `json:"nx"`
@@ -171,6 +175,17 @@ func (c *caseT) objective() scalarF {
 		}
 	}
 	return nil
+}
+
+// poly1d: the one-dimensional polynomial of a line1d case (Horner, no aliasing).
+func (c *caseT) poly1d() func(ConstScalar) (MagicScalar, error) {
+	return func(a ConstScalar) (MagicScalar, error) {
+		var r ConstScalar = cst(0)
+		for j := len(c.Coefs) - 1; j >= 0; j-- {
+			r = mul(add(r, cst(c.Coefs[j].f())), a)
+		}
+		return add(r, cst(0)), nil
+	}
 }
 
 // system builds the polynomial system of a polyroot case.
